@@ -405,9 +405,9 @@ def smooth_spec(dset, freq_window=3, dir_window=3):
 
     # Extend circular directions to take care of edge effects
     dirs = dsout[attrs.DIRNAME].values
-    dd = list(set(np.diff(dirs)))
-    if len(dd) == 1:
-        dd = float(dd[0])
+    dd = np.diff(dirs)
+    if dd.size > 0 and np.allclose(dd, dd[0], rtol=0, atol=1e-3 * abs(dd[0])):
+        dd = float(dd.mean())
         is_circular = (abs(dirs.max() - dirs.min() + dd - 360)) < (0.1 * dd)
     else:
         is_circular = False
